@@ -412,7 +412,9 @@ class AssociationRequester(Association):
                 self.max_pdu_length = max_pdu_length
 
         # Get accepted presentation contexts
-        accepted = (ctx for ctx in response.variable_items[1:-1] if ctx.result_reason == 0)
+        # only contexts that were actually proposed can be accepted
+        accepted = (ctx for ctx in response.variable_items[1:-1]
+                    if ctx.result_reason == 0 and ctx.context_id in self.context_def_list)
         for ctx in accepted:
             pc_id = ctx.context_id
             sop_class = self.context_def_list[ctx.context_id].sop_class
